@@ -93,6 +93,9 @@ func newParser(input string, builtins Builtins) *parser {
 	}
 	for name, funcDef := range builtins.Funcs {
 		fd := *funcDef
+		if fd.ReturnType != nil {
+			fd.ReturnType = fixedType(fd.ReturnType)
+		}
 		p.funcs[name] = &fd
 	}
 	funcs := p.consumeTokens(l)
@@ -454,6 +457,8 @@ func (p *parser) parseFuncDefSignature() *FuncDefStmt {
 		fd.ReturnType = p.parseType()
 		if fd.ReturnType == nil {
 			p.appendErrorForToken("invalid return type", tok)
+		} else {
+			fd.ReturnType = fixedType(fd.ReturnType)
 		}
 	}
 	for !p.isAtEOL() && p.cur.TokenType() != lexer.DOT3 {
